@@ -27,6 +27,7 @@ type CheckSpec struct {
 	Units    []Unit   `json:"units"`
 	Lemmas   []string `json:"lemmas,omitempty"`
 	Expect   []string `json:"expect"`
+	Vacuous  map[string]int `json:"vacuous,omitempty"` // obligation -> number of its sub-goals whose path condition is unreachable on the committed tree (dead cases / dead code by construction)
 	Bounded  []string `json:"bounded,omitempty"`
 	Notes    []string `json:"notes,omitempty"`
 }
@@ -48,6 +49,18 @@ type AggOb struct {
 	Parts  []*Obligation
 	Src    string
 	Where  string
+}
+
+// vacuousParts: the number of sub-goals whose path condition contradicts the assumptions in force (those sub-goals
+// hold for no execution, whatever their goal says).
+func (a *AggOb) vacuousParts() int {
+	n := 0
+	for _, p := range a.Parts {
+		if p.Reach == "unsat" {
+			n++
+		}
+	}
+	return n
 }
 
 var reRet = regexp.MustCompile(`@ret\d+`)
@@ -373,6 +386,12 @@ func cmdCheck(args []string) int {
 			continue
 		}
 		total++
+		if a.Status == "proved" && a.vacuousParts() > spec.Vacuous[a.Name] {
+			// reachability (cover) check: an obligation that was reachable when the expectation list was written and is
+			// discharged now only because no execution reaches it any more is not a proof
+			report(a.Name, fmt.Sprintf("obligation has become vacuous on %d more path(s): no execution reaches it there under the current contracts and code", a.vacuousParts()-spec.Vacuous[a.Name]), a)
+			continue
+		}
 		switch a.Status {
 		case "proved":
 			discharged++
@@ -538,6 +557,12 @@ func cmdExpect(args []string) int {
 		fmt.Println("  ERROR", e)
 	}
 	spec.Expect = names
+	spec.Vacuous = map[string]int{}
+	for _, a := range cr.aggs {
+		if n := a.vacuousParts(); n > 0 {
+			spec.Vacuous[a.Name] = n
+		}
+	}
 	data, _ := json.MarshalIndent(spec, "", " ")
 	os.WriteFile(filepath.Join(verifRoot, "checks", spec.Property+".json"), append(data, '\n'), 0o644)
 	fmt.Printf("%s: %d obligations expected\n", spec.Property, len(names))
